@@ -37,14 +37,14 @@ func init() {
 
 type kts struct {
 	rel bool
-	v   int64
+	v   int64 // relative: offset from now; absolute: the uint64 value, bit for bit (values >= 2^63 are negative here)
 }
 
 func (t kts) String() string {
 	if t.rel {
 		return "r" + strconv.FormatInt(t.v, 10)
 	}
-	return "a" + strconv.FormatInt(t.v, 10)
+	return "a" + strconv.FormatUint(uint64(t.v), 10)
 }
 func (t kts) resolve(now int64) uint64 {
 	if t.rel {
@@ -53,21 +53,37 @@ func (t kts) resolve(now int64) uint64 {
 	return uint64(t.v)
 }
 func krParseKts(s string) kts {
+	if s[0] == 'a' {
+		u, err := strconv.ParseUint(s[1:], 10, 64)
+		if err != nil {
+			panic("harness: bad ts " + s)
+		}
+		return kts{rel: false, v: int64(u)}
+	}
 	v, err := strconv.ParseInt(s[1:], 10, 64)
-	if err != nil || (s[0] != 'a' && s[0] != 'r') {
+	if err != nil || s[0] != 'r' {
 		panic("harness: bad ts " + s)
 	}
-	return kts{rel: s[0] == 'r', v: v}
+	return kts{rel: true, v: v}
 }
 func krShowKts(now int64, v uint64) string {
-	d := int64(v) - now
-	if d < 100000000000 && d > -100000000000 {
-		return "r" + strconv.FormatInt(d, 10)
+	const span = uint64(100000000000)
+	n := uint64(now)
+	if v >= n && v-n < span {
+		return "r" + strconv.FormatUint(v-n, 10)
+	}
+	if v < n && n-v < span {
+		return "r-" + strconv.FormatUint(n-v, 10)
 	}
 	return "a" + strconv.FormatUint(v, 10)
 }
 func krRelTs(off int64) kts { return kts{rel: true, v: off} }
 func krAbsTs(v int64) kts   { return kts{rel: false, v: v} }
+func krAbsU(u uint64) kts   { return kts{rel: false, v: int64(u)} }
+
+// timestamps at and beyond the int64 range: spec.Timestamp is a uint64, and a conversion through int64
+// (time.Time) must not move such an instant into the past
+var krHuge = []kts{krAbsU(1<<63 - 1), krAbsU(1 << 63), krAbsU(1<<64 - 1)}
 
 // ---- scripted database / fetchers ----
 
@@ -638,7 +654,9 @@ func genKeyring(o *Out, tier string, r *Rng) {
 				continue
 			}
 			var p profile
-			switch r.Intn(7) {
+			switch r.Intn(8) {
+			case 7: // valid_until_ts at / beyond the int64 range: the 7 day cap decides
+				p = profile{expired: krAbsTs(0), vu: Pick(r, krHuge), boundary: []kts{krRelTs(7*krDay - 10*krMin), krRelTs(7*krDay + 10*krMin), krRelTs(0), krAbsU(1 << 63)}}
 			case 0: // expired key
 				e := -krDay * int64(1+r.Intn(20))
 				p = profile{expired: krRelTs(e), vu: krAbsTs(0), boundary: []kts{krRelTs(e - 1), krRelTs(e), krRelTs(e + 1), krRelTs(e - krDay), krAbsTs(0)}}
@@ -668,6 +686,10 @@ func genKeyring(o *Out, tier string, r *Rng) {
 					reqs[i].at = Pick(r, p.boundary)
 					break
 				}
+			}
+			if r.Chance(8) { // a request timestamp at / beyond the int64 range lies after every validity period
+				reqs[i].at = Pick(r, krHuge)
+				o.Count("verify_jsons.at>=2^63-1")
 			}
 		}
 
@@ -794,7 +816,20 @@ func genKeyring(o *Out, tier string, r *Rng) {
 		// --- WasValidAt at every boundary ---
 		for j := 0; j < 3; j++ {
 			var ex, vu, at kts
-			switch r.Intn(6) {
+			switch r.Intn(8) {
+			case 6: // request timestamps at / beyond the int64 range: after every valid_until_ts and every cap
+				ex = krAbsTs(0)
+				vu = Pick(r, []kts{krRelTs(-365 * krDay), krRelTs(-krHour), krRelTs(krHour), krRelTs(400 * krDay), krAbsU(1<<63 - 1)})
+				at = Pick(r, krHuge)
+			case 7: // valid_until_ts / expired_ts at / beyond the int64 range
+				if r.Bool() {
+					ex, vu = krAbsTs(0), Pick(r, krHuge)
+					at = Pick(r, []kts{krRelTs(0), krRelTs(7*krDay - 10*krMin), krRelTs(7*krDay + 10*krMin), krAbsTs(0), krAbsU(1 << 63)})
+				} else {
+					e := Pick(r, krHuge)
+					ex, vu = e, krAbsTs(0)
+					at = Pick(r, []kts{krAbsU(uint64(e.v) - 1), e, krAbsU(uint64(e.v) + 1), krRelTs(0)})
+				}
 			case 0:
 				e := -int64(r.Intn(1000000)) - 5
 				ex, vu = krRelTs(e), Pick(r, []kts{krAbsTs(0), krRelTs(krHour)})
@@ -832,6 +867,7 @@ func genKeyring(o *Out, tier string, r *Rng) {
 //  2. the same with a second key ID on the message whose key is fine: the request must succeed.
 //  3. the fixed override (20aee4f): fetcher 0 supplies A's key, fetcher 1, asked only for B's, also offers a wrong key for A.
 //  4./5. a stale database key and a fetcher that replaces it / has nothing.
+//  6. a request timestamp beyond the int64 range against a key whose validity ended a year ago.
 func krFixedScenarios(r *Rng, now string) [][]string {
 	k1, k2, wrong := r.krKey(), r.krKey(), r.krKey()
 	keys := map[string]krKey{"ed25519:1": k1, "ed25519:2": k2}
@@ -850,6 +886,9 @@ func krFixedScenarios(r *Rng, now string) [][]string {
 	a1old := a1
 	a1old.at = krRelTs(-2 * krHour) // signed two hours ago: inside the validity of the stale key
 	staleA := krEntry{server: "a.example", keyID: "ed25519:1", key: k1.pub, expired: krAbsTs(0), vu: krRelTs(-krHour)}
+	a1huge := a1
+	a1huge.at = krAbsU(1 << 63)
+	yearOldA := krEntry{server: "a.example", keyID: "ed25519:1", key: k1.pub, expired: krAbsTs(0), vu: krRelTs(-365 * krDay)}
 	return [][]string{
 		{now, a1.String(), "_", "1", krScript{entries: []krEntry{short}}.String()},
 		{now, a12.String(), "_", "1", krScript{entries: []krEntry{short, good2}}.String()},
@@ -859,6 +898,10 @@ func krFixedScenarios(r *Rng, now string) [][]string {
 		{now, a1old.String() + ";" + b1.String(), krScript{entries: []krEntry{staleA}}.String(), "1", krScript{entries: []krEntry{wrongA}}.String()},
 		// 5. the same database entry when the fetcher has nothing: the stale key is used, A succeeds
 		{now, a1old.String() + ";" + b1.String(), krScript{entries: []krEntry{staleA}}.String(), "1", "_"},
+		// 6. a request timestamp of 2^63 ms (spec.Timestamp is a uint64) under the strict rule, the database holding the
+		//    right key with a valid_until_ts a year in the past: the instant is after every validity period, A must fail
+		//    (StrictValiditySignatureCheck used to convert through int64 / time.Time, which put 2^63 far in the past)
+		{now, a1huge.String(), krScript{entries: []krEntry{yearOldA}}.String(), "1", "none"},
 	}
 }
 
@@ -872,6 +915,13 @@ type krResponse struct {
 	nsArg  string // `_` | `|`-separated  keyid:known:sigOk      (signatures of the notary on the response)
 	raw    []byte
 	goodEd int // number of self-signed 32-byte ed25519 keys
+	olds   []krOld
+}
+
+// krOld is one old_verify_keys entry of a crafted response (for the boundaries of ServerKeys.PublicKey)
+type krOld struct {
+	id string
+	ex kts
 }
 
 // String is the response as an op argument: `parsed,name,vu,vks,oks,nsigs,raw`
@@ -1047,6 +1097,7 @@ func (r *Rng) krGenResponse(n0 int64, name string, vu kts, quality int, notary *
 		var p []string
 		for _, e := range oks {
 			p = append(p, hx([]byte(e.id))+":"+hx(e.key)+":"+e.ex.String())
+			res.olds = append(res.olds, krOld{e.id, e.ex})
 		}
 		res.okArg = strings.Join(p, "|")
 	}
@@ -1132,7 +1183,19 @@ func genServerKeysOps(o *Out, r *Rng, round int) {
 	if resp.parsed {
 		kid := Pick(r, []string{"ed25519:1", "ed25519:old", "ed25519:2", "nope"})
 		var at kts
-		switch r.Intn(3) {
+		c := r.Intn(3)
+		if len(resp.olds) > 0 && r.Chance(50) {
+			c = 3
+		}
+		switch c {
+		case 3: // an old key at the boundary of its expired_ts: valid BEFORE expired_ts, not at it
+			old := Pick(r, resp.olds)
+			kid = old.id
+			at = Pick(r, []kts{{old.ex.rel, old.ex.v - 1}, old.ex, {old.ex.rel, old.ex.v + 1}})
+			if at.v < 0 && !at.rel {
+				at = krAbsTs(0)
+			}
+			o.Count("public_key.old-key-boundary")
 		case 0:
 			at = Pick(r, []kts{{vu.rel, vu.v - 1}, vu, {vu.rel, vu.v + 1}})
 			if at.v < 0 && !at.rel {
